@@ -696,6 +696,7 @@ package sse
 //@ pure allcall(c, x) = cloop(x) == 1 && has(c.callbacksAll, ckeyint(x)) && callatkey(1, ckeyint(x)) == x && crecv(x) == c.callbacksAll[ckeyint(x)]
 
 //@ func Connection.dispatch
+//@   traced
 //@   requires c != nil && connok(c)
 //@   ensures every_callback_of_the_type_called: all(k, "int", has(typedcbs(c, ev), k) ==> old(ncalls()) <= callatkey(0, k) && callatkey(0, k) < ncalls() && typedcall(c, ev, callatkey(0, k)) && ckeyint(callatkey(0, k)) == k)
 //@   ensures every_subscribe_to_all_callback_called: all(k, "int", has(c.callbacksAll, k) ==> old(ncalls()) <= callatkey(1, k) && callatkey(1, k) < ncalls() && allcall(c, callatkey(1, k)) && ckeyint(callatkey(1, k)) == k)
@@ -714,3 +715,98 @@ package sse
 //@       all(e, "string", !has(result.callbacks, e)) && all(k, "int", !has(result.callbacksAll, k))
 //@   ensures first_attempt_state: !result.isRetry && result.lastEventID == "" && result.request != nil
 //@   ensures backoff_normalised: result.client.Backoff.InitialInterval > 0 && result.client.Backoff.Multiplier >= 1 && (result.client.Backoff.Jitter == -1 || (0 < result.client.Backoff.Jitter && result.client.Backoff.Jitter < 1))
+
+// ---------------------------------------------------------------------------------------------------------
+// event.go: the stream interpreter (C01, C10, C11, C12). yield, onRetry and the parser factory are abstract callees.
+// ---------------------------------------------------------------------------------------------------------
+
+//@ func @pf
+//@   ensures parser_is_new: fresh(result) && fresh(result.fieldScanner)
+//@   ensures parser_ready: result != nil && result.inputScanner != nil && result.fieldScanner != nil && !result.fieldScanner.keepComments && result.fieldScanner.err == nil
+
+//@ pure isyield(x) = iscall(x, "yield")
+//@ pure yielderr(x) = carg(x, "yield", 1)
+//@ pure yieldev(x) = carg(x, "yield", 0)
+
+//@ func read$1
+//@   ensures no_event_together_with_an_error: forall(x, old(ncalls()), ncalls(), isyield(x) && yielderr(x) != nil ==> yieldev(x).LastEventID == "" && yieldev(x).Type == "" && yieldev(x).Data == "")
+//@   ensures nothing_after_an_error: forall(x, old(ncalls()), ncalls(), isyield(x) && yielderr(x) != nil ==> x == ncalls()-1)
+//@   ensures stops_when_told: forall(x, old(ncalls()), ncalls()-1, isyield(x) ==> cret(x, "yield", 0))
+//@   ensures retry_only_for_valid_values: forall(x, old(ncalls()), ncalls(), iscall(x, "onRetry") ==> carg(x, "onRetry", 0) >= 0)
+//@   ensures ends_with_a_reason: !ignoreEOF && (forall(x, old(ncalls()), ncalls(), isyield(x) ==> cret(x, "yield", 0))) ==> ncalls() > old(ncalls()) && isyield(ncalls()-1) && yielderr(ncalls()-1) != nil
+//@   invariant 0 parser_alive: p != nil && p.fieldScanner != nil && p.inputScanner != nil && !p.fieldScanner.keepComments
+//@   invariant 0 no_error_yielded_yet: forall(x, old(ncalls()), ncalls(), isyield(x) ==> yielderr(x) == nil && cret(x, "yield", 0))
+//@   invariant 0 retries_valid: forall(x, old(ncalls()), ncalls(), iscall(x, "onRetry") ==> carg(x, "onRetry", 0) >= 0)
+
+// ---------------------------------------------------------------------------------------------------------
+// client_connection.go: reading one response (C10, C11, C13 order, C20 wiring)
+// ---------------------------------------------------------------------------------------------------------
+
+//@ func Connection.read$1
+//@   requires c != nil
+//@   ensures parser_is_new: fresh(result) && fresh(result.fieldScanner)
+//@   ensures parser_ready: result != nil && result.inputScanner != nil && result.fieldScanner != nil && !result.fieldScanner.keepComments && result.fieldScanner.err == nil
+
+//@ pure isdispatch(x) = iscall(x, "dispatch")
+//@ pure dispatched(x) = carg(x, "dispatch", 0)
+
+//@ func Connection.read
+//@   requires c != nil && connok(c)
+//@   modifies c.lastEventID
+//@   ensures never_nil: result != nil
+//@   ensures id_unchanged_without_dispatch: (forall(x, old(ncalls()), ncalls(), !isdispatch(x))) ==> c.lastEventID == old(c.lastEventID)
+//@   ensures id_is_the_last_dispatched_events: forall(x, old(ncalls()), ncalls(), isdispatch(x) && (forall(y, x+1, ncalls(), !isdispatch(y))) ==> c.lastEventID == dispatched(x).LastEventID)
+//@   ensures registry_untouched: connok(c)
+//@   ensures sends_no_request: forall(x, old(ncalls()), ncalls(), !iscall(x, "Do") && !iscall(x, "ResponseValidator") && !iscall(x, "GetBody"))
+//@   invariant read.0 sends_no_request: forall(x, old(ncalls()), ncalls(), !iscall(x, "Do") && !iscall(x, "ResponseValidator") && !iscall(x, "GetBody"))
+//@   invariant read.0 no_error_yet: readErr == nil && c != nil && connok(c)
+//@   invariant read.0 parser_alive: p != nil && p.fieldScanner != nil && p.inputScanner != nil && !p.fieldScanner.keepComments
+//@   invariant read.0 id_unchanged_without_dispatch: (forall(x, old(ncalls()), ncalls(), !isdispatch(x))) ==> c.lastEventID == old(c.lastEventID)
+//@   invariant read.0 id_is_the_last_dispatched_events: forall(x, old(ncalls()), ncalls(), isdispatch(x) && (forall(y, x+1, ncalls(), !isdispatch(y))) ==> c.lastEventID == dispatched(x).LastEventID)
+
+//@ func resetRequestBody
+//@   requires r != nil
+//@   modifies r.Body
+//@   ensures no_body_nothing_to_do: old(r.Body == nil || r.Body == http.NoBody) ==> result == nil && r.Body == old(r.Body) && ncalls() == old(ncalls())
+//@   ensures body_without_getbody_is_an_error: old(!(r.Body == nil || r.Body == http.NoBody)) && r.GetBody == nil ==> result == ErrNoGetBody && r.Body == old(r.Body) && ncalls() == old(ncalls())
+//@   ensures body_reobtained_once: old(!(r.Body == nil || r.Body == http.NoBody)) && r.GetBody != nil ==> ncalls() == old(ncalls()) + 1 && iscall(old(ncalls()), "GetBody") && result == cret(old(ncalls()), "GetBody", 1)
+//@   ensures fresh_body_installed: old(!(r.Body == nil || r.Body == http.NoBody)) && r.GetBody != nil && result == nil ==> r.Body == cret(old(ncalls()), "GetBody", 0)
+//@   ensures failed_getbody_keeps_body: result != nil ==> r.Body == old(r.Body)
+
+//@ pure hdrid(c) = c.request.Header["Last-Event-Id"]
+
+//@ func Connection.resetRequest
+//@   requires c != nil && c.request != nil && c.request.Header != nil
+//@   modifies c.isRetry, c.request.Body, mapcell(c.request.Header)
+//@   ensures first_attempt_sends_request_as_is: !old(c.isRetry) ==> result == nil && c.isRetry && ncalls() == old(ncalls()) && c.request.Body == old(c.request.Body) &&
+//@       all(k, "string", has(c.request.Header, k) == old(has(c.request.Header, k)) && c.request.Header[k] == old(c.request.Header[k]))
+//@   ensures stays_retry: old(c.isRetry) ==> c.isRetry
+//@   ensures only_reobtains_the_body: ncalls() <= old(ncalls()) + 1 && forall(x, old(ncalls()), ncalls(), iscall(x, "GetBody"))
+//@   ensures body_error_stops_before_headers: old(c.isRetry) && result != nil ==> c.request.Body == old(c.request.Body) &&
+//@       all(k, "string", has(c.request.Header, k) == old(has(c.request.Header, k)) && c.request.Header[k] == old(c.request.Header[k]))
+//@   ensures retry_carries_last_event_id: old(c.isRetry) && result == nil && c.lastEventID != "" ==> has(c.request.Header, "Last-Event-Id") && len(hdrid(c)) == 1 && hdrid(c)[0] == c.lastEventID
+//@   ensures retry_without_id_has_no_header: old(c.isRetry) && result == nil && c.lastEventID == "" ==> !has(c.request.Header, "Last-Event-Id")
+//@   ensures other_headers_untouched: all(k, "string", k != "Last-Event-Id" ==> has(c.request.Header, k) == old(has(c.request.Header, k)) && c.request.Header[k] == old(c.request.Header[k]))
+//@   ensures body_reobtained_for_retry: old(c.isRetry) && old(!(c.request.Body == nil || c.request.Body == http.NoBody)) && result == nil ==> ncalls() == old(ncalls()) + 1 && iscall(old(ncalls()), "GetBody") && cret(old(ncalls()), "GetBody", 1) == nil && c.request.Body == cret(old(ncalls()), "GetBody", 0)
+//@   ensures unobtainable_body_is_an_error: old(c.isRetry) && old(!(c.request.Body == nil || c.request.Body == http.NoBody)) && c.request.GetBody == nil ==> result == ErrNoGetBody
+
+//@ pure isdo(x) = iscall(x, "Do")
+//@ pure nobody(b) = b == nil || b == http.NoBody
+
+//@ func Connection.doConnect
+//@   requires c != nil && connok(c) && c.request != nil && c.request.Header != nil && c.client.HTTPClient != nil && c.client.ResponseValidator != nil
+//@   modifies c.isRetry, c.lastEventID, c.request.Body, mapcell(c.request.Header)
+//@   ensures never_nil: err != nil
+//@   ensures at_most_one_request: forall(x, old(ncalls()), ncalls(), forall(y, old(ncalls()), ncalls(), isdo(x) && isdo(y) ==> x == y))
+//@   ensures reset_failure_sends_nothing: (forall(x, old(ncalls()), ncalls(), !isdo(x))) ==> !shouldRetry && hasdyn(err, "*ConnectionError")
+//@   ensures retry_error_is_wrapped: shouldRetry ==> hasdyn(err, "*ConnectionError")
+//@   ensures validator_rejection_is_permanent: forall(x, old(ncalls()), ncalls(), iscall(x, "ResponseValidator") && cret(x, "ResponseValidator", 0) != nil ==> !shouldRetry && hasdyn(err, "*ConnectionError"))
+//@   ensures retry_request_carries_last_event_id: old(c.isRetry) ==> forall(x, old(ncalls()), ncalls(), isdo(x) ==>
+//@       ite(old(c.lastEventID) != "", dohasid(x) && doidlen(x) == 1 && doid(x) == old(c.lastEventID), !dohasid(x)))
+//@   ensures retry_request_reobtains_body_first: old(c.isRetry) && old(!nobody(c.request.Body)) ==> forall(x, old(ncalls()), ncalls(), isdo(x) ==> x > old(ncalls()) && iscall(old(ncalls()), "GetBody"))
+//@   ensures retry_request_only_after_getbody_succeeded: old(c.isRetry) && old(!nobody(c.request.Body)) ==> forall(x, old(ncalls()), ncalls(), isdo(x) ==> cret(old(ncalls()), "GetBody", 1) == nil)
+//@   ensures retry_request_has_fresh_body: old(c.isRetry) && old(!nobody(c.request.Body)) ==> forall(x, old(ncalls()), ncalls(), isdo(x) ==> dobody(x) == cret(old(ncalls()), "GetBody", 0))
+//@   ensures unobtainable_body_ends_the_connection: old(c.isRetry) && old(!nobody(c.request.Body)) && c.request.GetBody == nil ==> !shouldRetry && (forall(x, old(ncalls()), ncalls(), !isdo(x)))
+//@   ensures id_kept_unless_events_dispatched: (forall(x, old(ncalls()), ncalls(), !isdispatch(x))) ==> c.lastEventID == old(c.lastEventID)
+//@   ensures id_is_the_last_dispatched_events: forall(x, old(ncalls()), ncalls(), isdispatch(x) && (forall(y, x+1, ncalls(), !isdispatch(y))) ==> c.lastEventID == dispatched(x).LastEventID)
+//@   ensures becomes_retry: c.isRetry && connok(c)
